@@ -16,11 +16,35 @@ fn main() {
     let (seed, count, out) = (a[1].parse::<u64>().unwrap(), a[2].parse::<u64>().unwrap(), &a[3]);
     let mut rng = Rng::new(seed);
     let mut text = String::new();
+    std::fs::write(out, "").unwrap();
+    // watchdog: a caller that never returns (free-threaded cases have no driver to notice) must not
+    // hang the check; report the case and stop
+    let progress = Arc::new(std::sync::atomic::AtomicU64::new(0));
+    {
+        let progress = progress.clone();
+        let out = out.clone();
+        std::thread::spawn(move || {
+            let mut last = (u64::MAX, std::time::Instant::now());
+            loop {
+                std::thread::sleep(std::time::Duration::from_millis(500));
+                let cur = progress.load(std::sync::atomic::Ordering::SeqCst);
+                if cur != last.0 {
+                    last = (cur, std::time::Instant::now());
+                } else if last.1.elapsed() > std::time::Duration::from_secs(40) {
+                    use std::io::Write as _;
+                    let mut f = std::fs::OpenOptions::new().append(true).open(&out).unwrap();
+                    writeln!(f, "# case {cur} HANG a call to execute / parallel_execute / fallback_sequential did not return within 40s").unwrap();
+                    std::process::exit(3);
+                }
+            }
+        });
+    }
     for case in 0..count {
+        progress.store(case, std::sync::atomic::Ordering::SeqCst);
         let mut crng = rng.fork();
         let n = crng.below(5) as usize; // 0..4 transactions (empty block included)
         let inv = crng.chance(1, 3);
-        let (world, block) = gen_block(&mut crng, n, GenOpts { invalid: inv, destroy: false, create: false, beneficiary_roles: true, shared_callers: true, chain: false });
+        let (world, block) = gen_block(&mut crng, n, GenOpts { invalid: inv, destroy: false, create: false, beneficiary_roles: true, shared_callers: true, chain: false, cb: false });
         let orc = oracle(&world.db, &block);
         let callers = crng.range(2, 4) as usize;
         let driven = crng.chance(2, 3);
@@ -52,7 +76,14 @@ fn main() {
                     r
                 })
             }).collect();
-            hs.into_iter().map(|h| h.join().unwrap()).collect()
+            hs.into_iter()
+                .map(|h| {
+                    h.join().unwrap_or_else(|p| {
+                        let msg = p.downcast_ref::<String>().cloned().or_else(|| p.downcast_ref::<&str>().map(|s| s.to_string())).unwrap_or_else(|| "panic".into());
+                        Err(format!("PANIC:{msg}"))
+                    })
+                })
+                .collect()
         });
         Driver::uninstall();
         let (outs, mut st) = sched.take_result_and_state();
@@ -68,6 +99,11 @@ fn main() {
             }
         }
         text.push_str("--\n");
+        {
+            use std::io::Write as _;
+            let mut f = std::fs::OpenOptions::new().append(true).open(out).unwrap();
+            f.write_all(text.as_bytes()).unwrap();
+            text.clear();
+        }
     }
-    std::fs::write(out, text).unwrap();
 }
